@@ -1,5 +1,5 @@
 (* C04 — Message encode/decode round trip, v2 truncation and extension semantics.  Statements only. *)
-From GM Require Import Bytes Result Codec Layout Tables Dialects CodecProofs TableLayout.
+From GM Require Import Bytes Result Codec Layout LayoutSpec Tables Dialects CodecProofs CodecIdem TableLayout InitSpec.
 
 (* decoding the encoding of any value returns it in the canonical form the wire imposes, in both
    versions (v1: extension fields untouched, i.e. zero) *)
@@ -61,3 +61,12 @@ Print Assumptions C04_read_preserves_caller_buffer.
 Theorem C04_all_shipped_codecs_wf : forallb struct_codec_wf all_gostructs = true.
 Proof. exact all_shipped_codecs_wf. Qed.
 Print Assumptions C04_all_shipped_codecs_wf.
+
+(* ... and, generically, of the codec of ANY struct of the accepted shape (InitSpec.gostruct_ok: user
+   structs included) whose definition fits a 255-byte payload: all theorems above, and C08's, apply
+   to every message type the library accepts, not only to the shipped ones *)
+Theorem C04_accepted_struct_codec_wf : forall g d c,
+  gostruct_ok g = true -> def_of g = Some d -> (spec_size_ext (md_fields d) <= 255)%N -> initialize g = Ok c ->
+  codec_wf2 c /\ (N.to_nat (c_size_ext c) <= 255)%nat.
+Proof. exact accepted_struct_codec_wf. Qed.
+Print Assumptions C04_accepted_struct_codec_wf.
